@@ -233,7 +233,7 @@ def archive_specs(tier):
     py("ppmd/raw", M2, "ppmd", encoded=False, reduced=True)
     py("copy+aes/raw", M2, "copy+aes", encoded=False)
     py("lzma2+aes/encrypted", M1, "lzma2+aes", encoded=True, header_enc=True, reduced=True)
-    py("copy+aes/encrypted long name", MLONG, "copy+aes", encoded=True, header_enc=True)
+    py("copy+aes/encrypted long name", MLONG, "copy+aes", encoded=True, header_enc=True, reduced=True)
     py("copy|lzma2|deflate/raw 3 folders", M1, "copy", encoded=False, sessions=[(M2[:1], "lzma2"), ([("q", b"qqqqqqqq")], "deflate")])
     S.append({"label": "symlink copy/raw", "kind": "symlink", "path": True})
     S.append({"label": "mini copy folder-crc/raw 2 folders", "kind": "mini", "folders": [("copy", M1), ("copy", M2[:1])],
@@ -399,19 +399,39 @@ def probe_image(img, pw, tmp, want_path):
         except BaseException:  # noqa
             pass
     path = os.path.join(tmp, "x.7z")
-    with open(path, "wb") as f:
-        f.write(img)
-    for call in ("test", "testzip"):
+    if want_path:
+        with open(path, "wb") as f:
+            f.write(img)
+    # test() and testzip() on one session (both start from a reset worker); from a file when the archive is also
+    # extracted to a directory (several folders: py7zr then uses one thread per folder), else from memory
+    try:
+        z = py7zr.SevenZipFile(path if want_path else io.BytesIO(img), "r", password=pw)
+    except MemoryError:
+        return {"fatal": "memory"}
+    except _Timeout:
+        raise
+    except BaseException as e:  # noqa
+        out["test"] = out["testzip"] = ["err"] + _err(e)
+        z = None
+    if z is not None:
         try:
-            with py7zr.SevenZipFile(path, "r", password=pw) as z:
-                v = getattr(z, call)()
-            out[call] = ["ok", v]
-        except MemoryError:
-            return {"fatal": "memory"}
-        except _Timeout:
-            raise
-        except BaseException as e:  # noqa
-            out[call] = ["err"] + _err(e)
+            for call in ("test", "testzip"):
+                try:
+                    v = getattr(z, call)()
+                    out[call] = ["ok", v]
+                except MemoryError:
+                    return {"fatal": "memory"}
+                except _Timeout:
+                    raise
+                except BaseException as e:  # noqa
+                    out[call] = ["err"] + _err(e)
+        finally:
+            try:
+                z.close()
+            except _Timeout:
+                raise
+            except BaseException:  # noqa
+                pass
     if want_path:
         dest = os.path.join(tmp, "out")
         shutil.rmtree(dest, ignore_errors=True)
@@ -547,7 +567,7 @@ def batch_worker(arg):
 def mutation_set(base, regs, rng, tier, large=False, reduced=False):
     """full: every bit, every truncation length, overwrites everywhere.  reduced (quick tier, second half of the
     archives): every bit of the start header and of the packed streams (the regions only decoders and member CRCs
-    guard), every 4th bit of the next header (one CRC guards all of it), every 3rd truncation length."""
+    guard), every 8th bit of the next header (one CRC guards all of it), every 4th truncation length."""
     n = len(base)
     muts = []
     packed = [(a, b) for a, b, lab in regs if lab in ("packed", "encoded-header-stream")]
@@ -557,17 +577,17 @@ def mutation_set(base, regs, rng, tier, large=False, reduced=False):
             if lab != "next-header":
                 for i in range(a, min(b, n)):
                     dense[i] = True
-        muts += [["flip", i] for i in range(8 * n) if dense[i >> 3] or i % 4 == 1]
-        muts += [["trunc", k] for k in range(0, n, 3)]
-        nb = 100
+        muts += [["flip", i] for i in range(8 * n) if dense[i >> 3] or i % 8 == 1]
+        muts += [["trunc", k] for k in range(0, n, 4)]
+        nb = 60
     elif not large:
         muts += [["flip", i] for i in range(8 * n)]                     # exhaustive
         muts += [["trunc", k] for k in range(n)]                        # every truncation length
-        step = 2 if tier != "quick" else 3
+        step = 2 if tier != "quick" else 5
         for p in range(0, n, step):
             muts.append(["ow", p, "%02x" % (base[p] ^ 0xFF)])
             muts.append(["ow", p, "00" if base[p] else "01"])
-        nb = 250 if tier == "quick" else 800
+        nb = 150 if tier == "quick" else 800
     else:
         pos = set(range(0, 8 * 32))
         for a, b, lab in regs:
@@ -1126,18 +1146,17 @@ def corr_flow(ctx, rng):
                               concrete=False, match_keys={"kind": "flow-mismatch", "call": "extract"})
                 break
             got = run_flow_impl(shape, decs, skip, tmp, "testzip")
-            wants = [model.call("dmg_testzip", [tz, shape, decs]) for tz in (0, 1)]
-            ok = [got == w for w in wants]
+            want = model.call("dmg_testzip", [1, shape, decs])            # testzip_impl: the code as it is
+            old = model.call("dmg_testzip", [0, shape, decs])             # before commit 065e810
             rep.dist("testzip_outcome", {0: "returned", 2: "raised", 3: "flagged"}[got[0]] + ("" if got[0] != 0 else (" None" if got[1] == [] else " name")))
-            if wants[0] != wants[1] and any(ok):
-                v = ok[1]
-                if variant["tzfolder"] is None:
-                    variant["tzfolder"] = v
-                elif variant["tzfolder"] != v:
-                    ok = [False, False]
-            if not any(ok):
-                rep.violation("testzip() over scripted decoders: implementation %r, model %r (unrepaired) / %r (repaired); "
-                              "shape %r decoders %r" % (got, wants[0], wants[1], shape, decs),
+            if want != old:
+                variant["tzfolder"] = (got == want) if variant["tzfolder"] in (None, True) else False
+            if got != want:
+                what = "testzip() over scripted decoders: implementation %r, model %r" % (got, want)
+                if got == old and want != old:
+                    what = ("REGRESSION testzip() returns None for a folder-level CrcError (the behaviour before commit 065e810): "
+                            "implementation %r, model %r" % (got, want))
+                rep.violation(what + "; shape %r decoders %r" % (shape, decs),
                               {"kind": "flow", "shape": shape, "decs": decs, "skip": False, "call": "testzip"},
                               concrete=False, match_keys={"kind": "flow-mismatch", "call": "testzip"})
                 break
@@ -1146,7 +1165,8 @@ def corr_flow(ctx, rng):
     rep.extra["implementation_variant"] = {
         "symcheck (symbolic-link branch compares the CRC)": variant["symcheck"],
         "tzfolder (testzip reports a folder-level CRC error)": variant["tzfolder"],
-        "meaning": "false = the unrepaired code, for which the _refuted theorems are the applicable ones"}
+        "meaning": "symcheck false = the symbolic-link branch compares no CRC (C04_delivered_implies_checked_refuted applies); "
+                   "tzfolder true = testzip_impl, the model the theorems C04_testzip_sound/_none_extract_ok are about"}
     rep.extra["correspondence_flow_cases"] = n
     return variant
 
